@@ -1,1 +1,4 @@
 // hook file for statime-csptp/src/source.rs: declares the per-property harness modules
+#[cfg(any(verif_all, verif_c44))]
+#[path = "/verif/harness/statime-csptp/c44.rs"]
+mod c44;
